@@ -123,3 +123,36 @@ class G2D1:
 
 for _c in (G1C1, G1C2, G1C3):
     attrs.resolve_types(_c, globals(), locals())
+
+
+# mixed kinds (oracle only in the THR lane): a TypedDict, a NamedTuple and a dataclass on the way, every one of them with a
+# marker attribute, so that a thread can be parked in the middle of generating any of their hooks
+class G3T3(TypedDict):
+    m: Mk
+    n: int
+
+
+class G3N2(NamedTuple):
+    m: Mk
+    t: G3T3
+
+
+@dataclasses.dataclass
+class G3D1:
+    m: Mk
+    nt: G3N2
+    td: G3T3
+
+
+class G4T2(TypedDict):
+    m: Mk
+    items: "list[G4A1]"
+
+
+@attrs.define
+class G4A1:
+    m: Mk
+    child: "G4T2 | None" = None
+
+
+attrs.resolve_types(G4A1, globals(), locals())
